@@ -548,7 +548,11 @@ fn run_case(rep: &mut Report, s: &StateD, scratch: &Path, git_round: bool) {
     if std::fs::write(&index, bytes).is_err() {
         return;
     }
-    let listing = git(scratch, &["ls-files", "--sparse", "--stage", "--debug", "-z"], None);
+    let listing = git(
+        scratch,
+        &["-c", "sparse.expectFilesOutsideOfPatterns=true", "ls-files", "--sparse", "--stage", "--debug", "-z"],
+        None,
+    );
     rep.git_checked(1);
     if !listing.ok {
         rep.oracle_failure(
@@ -788,9 +792,9 @@ fn main() {
     let repo = scratch.join("repo");
     std::fs::create_dir_all(&repo).expect("mkdir");
     git_ok(&repo, &["init", "-q", "."], None);
-    for (k, v) in [("core.sparseCheckout", "true"), ("core.sparseCheckoutCone", "true"), ("index.sparse", "true")] {
-        git_ok(&repo, &["config", k, v], None);
-    }
+    // NO sparse-checkout configuration here: with core.sparseCheckout git clears SKIP_WORKTREE *in memory* for paths
+    // that exist in the worktree (clear_skip_worktree_from_present_files; a one-byte path like "." does), and the
+    // listing would no longer show what is stored in the file
 
     if let Some(ops) = replay_ops(&args) {
         for op in ops {
